@@ -78,7 +78,7 @@ def parts(ck):
 
 def run(ck):
     for exe, args, tag, batch, deadline in parts(ck):
-        ck.enum(exe, args, tag, batch=batch, deadline_s=deadline, timeout_ms=60000)
+        ck.enum(exe, args, tag, batch=batch, deadline_s=deadline, timeout_ms=5000)
     tot = lambda name: sum(p.get("counters", {}).get(name, 0) for p in ck.parts)
     cov = vlib.enum_coverage(ck.parts, RULE, "nontrivial", extra={
         "executions": tot("connections"), "transitions": tot("reads"), "traces_validated_against_impl": tot("deliveries_compared"),
